@@ -29,6 +29,8 @@ pub struct Walker {
     pub read_ok: bool,
     /// number of Err shapes observed (used by the static-blob fit criterion)
     pub errs: u32,
+    /// byte length of the case input (bounds string iterators: a string cannot have more chars than bytes)
+    pub input_len: u64,
 }
 
 impl Walker {
@@ -44,6 +46,7 @@ impl Walker {
             root_fields: 0,
             read_ok: false,
             errs: 0,
+            input_len: u64::MAX / 2,
         }
     }
 
@@ -328,8 +331,13 @@ impl Walker {
                             self.h.u64(c as u64);
                             n += 1;
                             self.calls += 1;
-                            // a string cannot have more characters than the input has bytes; the
-                            // horizon bounds a runaway iterator
+                            // a string cannot have more characters than the input has bytes
+                            if n > self.input_len + 8 {
+                                crate::drivers::report_overrun("SomeString::iter_chars (name/lang-tag string) yields more chars than the input has bytes", n);
+                                self.nodes += n & 0xFF;
+                                break;
+                            }
+                            // the horizon bounds a runaway iterator
                             if n & 0xFF == 0 {
                                 self.nodes += 256;
                                 if self.over() {
